@@ -115,6 +115,24 @@ func (c15) Build(tier string, seed uint64) []any {
 		}
 		cs = append(cs, c)
 	}
+	// pixel counts around 2^16 with moderate dimensions
+	for j, g := range areaSizes(th, seed) {
+		for i := 0; i < 3; i++ {
+			r := gen.Sub(seed, "C15", "area", j*10+i)
+			c := &c15Case{Gen: "area", W: g[0], H: g[1], C: gen.Pick(r, 1, 3), Quality: 50 + r.Intn(51), Class: gen.Pick(r, classes...), CSeed: r.U64()}
+			switch i {
+			case 0:
+				c.Dir, c.Codec = "A", gen.Pick(r, "baseline", "extended")
+			case 1:
+				c.Dir, c.Codec, c.Src = "B", gen.Pick(r, "baseline", "extended"), "stdlib"
+			default:
+				c.Dir, c.Codec, c.Src = "B", gen.Pick(r, "baseline", "extended"), "ref"
+				c.HY, c.VY = gen.Pick(r, 1, 2), gen.Pick(r, 1, 2)
+				c.App = "jfif"
+			}
+			cs = append(cs, c)
+		}
+	}
 	return cs
 }
 
